@@ -618,8 +618,12 @@ def gen_history(rng, rig: Rig, segs: list[bytes], close_after: bool, max_steps=4
     p_read = {"any": 0.5, "small": 0.5, "mixed": 0.5, "lazy": 0.15}[consumer]
     fixed_n = rng.choice(READ_SIZES)
 
+    close_flags = None
+
     def do(tok):
-        nonlocal outcome
+        nonlocal outcome, close_flags
+        if tok == "X" and close_flags is None and rig.deliverable() and rig.parser_open():
+            close_flags = rig.snap().split(".")[0]
         o = rig.event(tok)
         evs.append(tok)
         obs.append(o + "/" + rig.snap())
@@ -699,7 +703,8 @@ def gen_history(rng, rig: Rig, segs: list[bytes], close_after: bool, max_steps=4
     else:
         outcome = outcome or "budget"
     summary = {"received": bytes(received), "outcome": outcome or "stuck", "blocked_before_close": stuck,
-               "delivered_all": i >= len(segs), "closed": closed, "closed_early": closed_early, "late_close": late_close, "steps": len(evs)}
+               "delivered_all": i >= len(segs), "closed": closed, "closed_early": closed_early, "late_close": late_close, "steps": len(evs),
+               "close_flags": close_flags or rig.snap().split(".")[0]}
     return evs, obs, summary
 
 
@@ -707,7 +712,10 @@ def replay_history(rig: Rig, evs):
     obs = []
     received = bytearray()
     outcome = None
+    close_flags = None
     for tok in evs:
+        if tok == "X" and close_flags is None and rig.deliverable() and rig.parser_open():
+            close_flags = rig.snap().split(".")[0]
         o = rig.event(tok)
         obs.append(o + "/" + rig.snap())
         if o.startswith("d") and (tok[0] in "ARDX"):
@@ -717,7 +725,7 @@ def replay_history(rig: Rig, evs):
             received.extend(v)
         elif o.startswith("e") and outcome is None:
             outcome = "err:" + o[1:]
-    return obs, {"received": bytes(received), "outcome": outcome or "stuck"}
+    return obs, {"received": bytes(received), "outcome": outcome or "stuck", "close_flags": close_flags or rig.snap().split(".")[0]}
 
 
 # =================================================================================================
@@ -792,6 +800,11 @@ def _sig(kind_set):
                     return False
             elif k == "tag":
                 if case.get("tag") not in v:
+                    return False
+            elif k == "close_flags":
+                # flags <tpaused><rpaused><parser open><eof><has_more> when the peer closed / the consumer got stuck
+                f = case.get("close_flags") or ""
+                if len(f) != 5 or any(want != "?" and want != got for want, got in zip(v, f)):
                     return False
         return True
     return pred
@@ -970,7 +983,7 @@ def suite_glue(ctx, exe, n):
         ctx.count("glue:outcome:" + summary["outcome"].split(":")[0])
         ctx.count("glue:body:" + case.get("tag", "?") + "/" + case["wire_state"])
         ctx.count("glue:events", len(evs))
-        full = dict(case, suite="glue", events=evs, closed_early=bool(summary.get("closed_early")), late_close=bool(summary.get("late_close")))
+        full = dict(case, suite="glue", events=evs, closed_early=bool(summary.get("closed_early")), late_close=bool(summary.get("late_close")), close_flags=summary.get("close_flags"))
         oom = next((i for i, t in enumerate(mobs) if t.startswith("eOutOfModel")), None)
         if oom is not None:          # trailer fields / message heads: outside the model from this token on
             ctx.count("glue:out_of_model")
@@ -1087,7 +1100,7 @@ def suite_real(ctx, n):
             ctx.count("real:codec:" + case["codec"])
             ctx.count("real:outcome:" + summary["outcome"].split(":")[0])
             ctx.count("real:body:" + case["tag"] + "/" + case["wire_state"])
-            full = dict(case, suite="real", events=evs, closed_early=bool(summary.get("closed_early")), late_close=bool(summary.get("late_close")))
+            full = dict(case, suite="real", events=evs, closed_early=bool(summary.get("closed_early")), late_close=bool(summary.get("late_close")), close_flags=summary.get("close_flags"))
             for kind, msg in verdicts(case, summary, ref) + bad:
                 ctx.violation(dict(full, kind=kind), f"{kind}: {msg}")
     finally:
